@@ -113,6 +113,10 @@ func C09(c *core.Ctx) error {
 				tgt(pcs, ics)["filename"] = "{{.InterfaceName"
 			})
 		}
+		add("schema-rejected value at interface level overriding a valid top-level value of the same key"+at, true, func(root core.M, pcs, ics []core.M, files map[string]string, s *c09scn) {
+			root["template-data"] = core.M{"explode": false}
+			ics[pos]["config"].(core.M)["template-data"] = core.M{"explode": "sometimes"}
+		})
 		add("output the formatter rejects"+at, true, func(root core.M, pcs, ics []core.M, files map[string]string, s *c09scn) { pcs[pos]["template-data"] = core.M{"badgo": true} })
 		add("invalid include-interface-regex"+at, true, func(root core.M, pcs, ics []core.M, files map[string]string, s *c09scn) {
 			pkgs(root)[P(pk[pos])] = core.M{"config": core.M{"include-interface-regex": "I("}}
